@@ -41,8 +41,10 @@ def _is_complex(dt):
 
 
 def field_of(A):
-    """'C' when the operator maps complex arrays to complex arrays (linearity over ℂ is required), else 'R'"""
-    return "C" if _is_complex(A.input_dtype) and _is_complex(A.output_dtype) else "R"
+    """'C' for a complex operator = declared with a complex input dtype (linearity over ℂ is required of it and of
+    its adjoint / Gram / T / H / conj views), else 'R'.  An operator ℝⁿ→ℂᵐ is a real operator: its adjoint ℂᵐ→ℝⁿ
+    takes a real part and is ℝ-linear only - that is a view of a real operator, not a complex operator."""
+    return "C" if _is_complex(A.input_dtype) else "R"
 
 
 def acceptable(tag, field):
@@ -108,6 +110,9 @@ def collect(rng, thorough, per_class, hist=None, known_ids=(), on_view=None):
             hist[k] = hist.get(k, 0) + 1
 
     for cls, cfg, A in ops.enumerate_ops(rng, thorough, per_class):
+        if isinstance(A, ops.NotPresentedAsLinear):
+            count(f"not-presented-as-linear:{cls}")
+            continue
         if isinstance(A, Exception):
             # a constructor that fails because a transpose (adjoint) cannot be derived means the forward map is not
             # structurally linear: that is C06's business (failing obligation); other constructor failures are not
@@ -273,6 +278,8 @@ def generate(rng, thorough, per_class, nbuckets, hist=None, known_ids=(), on_vie
         if r.get("status") == "ok":
             have.setdefault(r["cls"], set()).add(r["view"])
     for c in ops.all_classes():
+        if c in ops.OPTIONAL_CLASSES:
+            continue
         if not {"eval", "adj"} <= have.get(c, set()):
             first = next((r for r in records if r["cls"] == c and r["status"] != "ok"), None)
             if first is not None and first["status"] == "build-error" and first.get("relevant"):
